@@ -46,13 +46,14 @@ def check(ctx):
                   reason="AuthCookie.client_addr is %s, expected self.client_address" % render(f.get("client_addr", ("unknown", "")), maxdepth=3),
                   detail="client_addr = self.client_address")
         ts = f.get("timestamp", ("unknown", ""))
-        now_ok = bool(calls_in(ts, "SystemTime::now")) and bool(calls_in(ts, "Duration::as_secs")) and \
-            bool(find_all(ts, lambda y: y[0] in ("constitem", "const", "static") and "UNIX_EPOCH" in str(y[1:])))
+        from ..lib import deep_calls
+        now_ok = bool(deep_calls(ctx.prog, ts, "SystemTime::now")) and bool(deep_calls(ctx.prog, ts, "Duration::as_secs")) and \
+            (bool(find_all(ts, lambda y: y[0] in ("constitem", "const", "static") and "UNIX_EPOCH" in str(y[1:]))) or not calls_in(ts, "SystemTime::now"))
         ctx.check(now_ok, R, "C10/auth-cookie-fields/timestamp", st,
                   reason="AuthCookie.timestamp is %s, expected seconds since UNIX_EPOCH of SystemTime::now()" % render(ts, maxdepth=4),
                   detail="timestamp = now().duration_since(UNIX_EPOCH).as_secs()")
         # ... taken when the cookie is issued (after routing chose the target), not carried over from earlier in the login
-        nows = [c[4] for c in calls_in(ts, "SystemTime::now")]
+        nows = [c[0][4] for c in deep_calls(ctx.prog, ts, "SystemTime::now")]
         late = bool(nows) and sbb is not None and all(always_before(g, sbb, nb) for nb in nows)
         ctx.check(late, R, "C10/auth-cookie-fields/timestamp-is-issue-time", st,
                   reason="AuthCookie.timestamp reuses a clock reading taken at %s, before routing finished: the cookie is back-dated by the time login and routing took, so it expires early"
